@@ -20,6 +20,9 @@ from typing import Any
 from vf.core import Collector, digest, env_seed, jsonable, log, shard_seed
 
 ROOT = Path(os.environ.get("VERIF_ROOT", Path(__file__).resolve().parent.parent))
+# evidence / replays go to VERIF_OUT when set (used by the sensitivity runner so that mutant runs never touch
+# the evidence of the real tree)
+OUT = Path(os.environ.get("VERIF_OUT", ROOT))
 
 
 def _check_tree() -> str:
@@ -53,7 +56,7 @@ def load_known(prop: str) -> list[dict[str, Any]]:
 
 
 def write_replay(prop: str, v: dict[str, Any]) -> Path:
-    d = ROOT / "replays" / prop
+    d = OUT / "replays" / prop
     d.mkdir(parents=True, exist_ok=True)
     p = d / f"{digest(v['bucket'])}.json"
     p.write_text(json.dumps({"property": prop, **v}, indent=1, sort_keys=True))
@@ -214,8 +217,8 @@ def main(argv: list[str]) -> int:
         "wall_s": round(wall, 2),
         "violations": len(seen),
     }
-    (ROOT / "evidence").mkdir(exist_ok=True)
-    (ROOT / "evidence" / f"{prop}.json").write_text(json.dumps(ev, indent=1, sort_keys=True))
+    (OUT / "evidence").mkdir(parents=True, exist_ok=True)
+    (OUT / "evidence" / f"{prop}.json").write_text(json.dumps(ev, indent=1, sort_keys=True))
     log(f"{prop} {tier} seed={seed}: {total.evaluations} cases, {len(total.nontrivial)} distinct non-trivial, "
         f"{len(seen)} violation bucket(s), {len(known_lines)} known finding(s), {wall:.1f}s")
     return exit_code
